@@ -10,9 +10,11 @@ J == ph = 1
 T == Traces[i]
 N == Len(T.events)
 \* the statement's reading: any received message resets the count (late pongs are just messages)
-Stmt == Run(M0(0), T.events, 1, T.p, T.keepAlive, T.maxRetries, TRUE)
+Stmt == Run(M0(0), T.events, 1, T.p, T.keepAlive, T.maxRetries, TRUE, TRUE)
+\* the same, but "a late answer to an earlier ping is not credited to a later one": it refreshes the idle timer only
+Mid == Run(M0(0), T.events, 1, T.p, T.keepAlive, T.maxRetries, TRUE, FALSE)
 \* the code's reading: only the matching pong resets the count
-Code == Run(M0(0), T.events, 1, T.p, T.keepAlive, T.maxRetries, FALSE)
+Code == Run(M0(0), T.events, 1, T.p, T.keepAlive, T.maxRetries, FALSE, FALSE)
 Closed(k) == T.obs[k].closed
 FirstClosed == IF \E k \in 1..N : Closed(k) THEN CHOOSE k \in 1..N : Closed(k) /\ \A j \in 1..(k - 1) : ~Closed(j) ELSE 0
 LastRecvBefore(k) == LET S == {j \in 1..k : T.events[j].e \in {"recv", "pong"}} IN
@@ -28,7 +30,7 @@ C18_FirstTick  == (J /\ ~T.keepAlive) => \A k \in 1..N :
 C18_KA_NotEarly == (J /\ T.keepAlive /\ FirstClosed # 0) => Stmt[FirstClosed].closed
 \* "a late answer to an earlier ping is not credited to a later one": not later than any reading allows that
 \* resets on traffic and on the matching pong but never on a late pong
-C18_KA_NotLate  == (J /\ T.keepAlive) => \A k \in 1..N : Stmt[k].closed => Closed(k)
+C18_KA_NotLate  == (J /\ T.keepAlive) => \A k \in 1..N : Mid[k].closed => Closed(k)
 C18_CloseOnce   == J => T.closes <= 1
 \* conformance only: exactly the code-shaped model (closing and number of pings after every event)
 K18_Conforms    == J => \A k \in 1..N : (Closed(k) = Code[k].closed /\ (~Closed(k) => T.obs[k].pings = Code[k].pings))
